@@ -27,9 +27,21 @@ fn conserve<'a>(ctx: &mut Ctx, name: &str, desc: &dyn Fn() -> String, mk: &dyn F
     let full = catch(|| {
         let it = mk();
         let h = it.size_hint();
+        // the trait's own accessors announce the same thing
+        let (tl, te) = (TrustedLen::len(&it), TrustedLen::is_empty(&it));
         let items: Vec<f64> = it.take(1_000_000).collect();
-        (h, items)
+        (h, items, tl, te)
     });
+    let full = match full {
+        Ok((h, items, tl, te)) => {
+            if Some(tl) != h.1 || te != (tl == 0) {
+                ctx.violation(&format!("{name}/len_accessors"), || format!("size_hint {h:?}, TrustedLen::len {tl}, is_empty {te}, {} items; {}", items.len(), desc()));
+                return None;
+            }
+            Ok((h, items))
+        },
+        Err(p) => Err(p),
+    };
     let (h0, items) = match full {
         Ok(v) => v,
         Err(p) => {
@@ -77,6 +89,36 @@ fn conserve<'a>(ctx: &mut Ctx, name: &str, desc: &dyn Fn() -> String, mk: &dyn F
             },
             Err(p) => {
                 ctx.violation(&format!("{name}/panic/{}", panic_key(&p)), || format!("{p} during partial consumption; {}", desc()));
+                return Some(items);
+            },
+        }
+    }
+    // partial consumption by skipping: nth(j) for j around the end (an nth that runs past the end
+    // must leave an iterator that announces nothing)
+    let mut js: Vec<usize> = vec![0, 1, total.saturating_sub(1), total, total + 1, total + 3];
+    js.sort_unstable();
+    js.dedup();
+    for j in js {
+        let r = catch(|| {
+            let mut it = mk();
+            let got = it.nth(j);
+            let h = it.size_hint();
+            let rest = it.take(1_000_000).count();
+            (got.is_some(), h, rest)
+        });
+        ctx.events += 1;
+        match r {
+            Ok((some, h, rest)) => {
+                if h.1 != Some(rest) || rest != total.saturating_sub(j + 1) || some != (j < total) {
+                    ctx.violation(&format!("{name}/hint_after_nth"), || {
+                        format!("nth({j}) of {total} items returned Some={some}: size_hint upper bound {:?} but {rest} items remain; {}", h.1, desc())
+                    });
+                    return Some(items);
+                }
+                ctx.count("nth_probes_ok");
+            },
+            Err(p) => {
+                ctx.violation(&format!("{name}/panic/{}", panic_key(&p)), || format!("{p} during nth({j}); {}", desc()));
                 return Some(items);
             },
         }
@@ -414,7 +456,7 @@ fn main() {
     if let Some(mut rng) = ctx.random_case() {
         generator_suite(&mut ctx, &mut rng);
     }
-    let np = if san { ctx.budget(30, 120) } else { ctx.budget(20000, 400000) };
+    let np = if san { ctx.cbudget(30, 120) } else { ctx.cbudget(20000, 400000) };
     for _ in 0..np {
         if let Some(mut rng) = ctx.random_case() {
             let len = rng.range_usize(0, if san { 8 } else { 24 });
